@@ -1,6 +1,9 @@
 mod explore;
+mod ix;
 mod model;
+mod mon;
 mod msched;
+mod props;
 mod valenum;
 mod world;
 
@@ -9,53 +12,141 @@ use std::sync::Arc;
 use model::*;
 
 pub fn render(e: &Ev) -> String {
-    format!("t={} o={:?} {:?}", e.t, e.owner, e.k)
+    let o = match e.owner {
+        Some(o) => format!("o{o}"),
+        None => "--".to_string(),
+    };
+    format!("t={:<3} {o:<3} {:?}", e.t, e.k)
 }
 
-fn smoke() -> Scenario {
-    let mut a = ActorSpec::plain(2);
-    a.on_run = vec![];
-    Scenario {
-        name: "smoke".into(),
-        actors: vec![a],
-        clients: vec![
-            Program::new(
-                vec![(0, 0)],
-                vec![
-                    Step::Send { kind: SendKind::Tell, slot: 0, msg: MsgSpec::m1(1) },
-                    Step::Send { kind: SendKind::Ask, slot: 0, msg: MsgSpec::m1(2) },
-                    Step::DropH(0),
-                ],
-            ),
-            Program::new(
-                vec![(0, 0)],
-                vec![Step::Send { kind: SendKind::AskTO(10), slot: 0, msg: MsgSpec::m1(3).steps(vec![Step::Sleep(20)]) }, Step::Stop(0)],
-            ),
-        ],
-        registry: false,
-        seed: 0,
-        tags: vec![],
-    }
+fn arg(args: &[String], name: &str) -> Option<String> {
+    args.iter().position(|a| a == name).and_then(|i| args.get(i + 1).cloned())
 }
 
 fn main() {
     msched::install_panic_hook();
     msched::install_tracing();
-    let scn = Arc::new(smoke());
-    let (r, _) = explore::run_schedule(&scn, &[]);
-    for e in &r.trace {
-        println!("{}", render(e));
+    let args: Vec<String> = std::env::args().collect();
+    let cmd = args.get(1).map(|s| s.as_str()).unwrap_or("");
+    match cmd {
+        "explore" => cmd_explore(&args),
+        "replay" => cmd_replay(&args),
+        "list" => {
+            let prop = arg(&args, "--prop").expect("--prop");
+            let thorough = arg(&args, "--tier").as_deref() == Some("thorough");
+            let p = props::all().into_iter().find(|p| p.id == prop).expect("unknown property");
+            let scns = (p.gen)(thorough);
+            println!("{}", scns.len());
+            if args.iter().any(|a| a == "--names") {
+                for s in &scns {
+                    println!("{}", s.name);
+                }
+            }
+        }
+        _ => {
+            eprintln!("usage: rsv explore --prop C04 --tier quick --shard 0 --nshards 16 --out f.json | replay <file> | list --prop C04");
+            std::process::exit(2);
+        }
     }
-    println!("steps={:?} err={:?}", r.steps.iter().map(|s| (s.n, s.chosen, s.cont)).collect::<Vec<_>>(), r.error);
+}
+
+fn cmd_explore(args: &[String]) {
+    let prop = arg(args, "--prop").expect("--prop");
+    let thorough = arg(args, "--tier").as_deref() == Some("thorough");
+    let shard: usize = arg(args, "--shard").map(|s| s.parse().unwrap()).unwrap_or(0);
+    let nshards: usize = arg(args, "--nshards").map(|s| s.parse().unwrap()).unwrap_or(1);
+    let seed: u64 = arg(args, "--seed").map(|s| s.parse().unwrap()).unwrap_or(0);
+    let out = arg(args, "--out");
+    let only = arg(args, "--only");
+    let budget_s: f64 = arg(args, "--budget").map(|s| s.parse().unwrap()).unwrap_or(if thorough { 800.0 } else { 50.0 });
+    let max_found: usize = arg(args, "--max-found").map(|s| s.parse().unwrap()).unwrap_or(3);
+    let p = props::all().into_iter().find(|p| p.id == prop).expect("unknown property");
+    let mut scns = (p.gen)(thorough);
+    if seed != 0 {
+        for s in scns.iter_mut() {
+            s.seed = s.seed.wrapping_add(seed);
+        }
+    }
+    let lim = explore::Limits {
+        bound: arg(args, "--bound").map(|b| if b == "inf" { None } else { Some(b.parse().unwrap()) }).unwrap_or(if thorough { p.bound_thorough } else { p.bound_quick }),
+        max_execs: arg(args, "--max-execs").map(|s| s.parse().unwrap()).unwrap_or(if thorough { p.max_execs_thorough } else { p.max_execs_quick }),
+    };
+    let t0 = std::time::Instant::now();
     let mut stats = explore::Stats::default();
     let mut sample = None;
-    let t = std::time::Instant::now();
-    let out = explore::explore_scenario(
-        &scn,
-        &explore::Limits { bound: None, max_execs: 2_000_000 },
-        &|_s, _t| vec![],
-        &mut stats,
-        &mut sample,
-    );
-    println!("{:?} exhaustive={} in {:?}", stats, out.exhaustive, t.elapsed());
+    let mut found: Vec<explore::Found> = Vec::new();
+    let mut sigs: Vec<serde_json::Value> = Vec::new();
+    let mut skipped_budget = 0u64;
+    let total = scns.len();
+    // rotate the shard assignment with the seed so that different seeds shard differently
+    for (i, s) in scns.into_iter().enumerate() {
+        if (i + seed as usize) % nshards != shard {
+            continue;
+        }
+        if let Some(o) = &only {
+            if !s.name.contains(o.as_str()) {
+                continue;
+            }
+        }
+        if t0.elapsed().as_secs_f64() > budget_s {
+            skipped_budget += 1;
+            continue;
+        }
+        let s = Arc::new(s);
+        let r = explore::explore_scenario(&s, &lim, &p.monitor, &mut stats, &mut sample);
+        sigs.push(serde_json::json!({"name": s.name, "tree": format!("{:016x}", r.tree_sig), "set": format!("{:016x}", r.set_sig), "n": r.trace_hashes.len(), "exhaustive": r.exhaustive}));
+        if let Some(f) = r.found {
+            found.push(f);
+            if found.len() >= max_found {
+                break;
+            }
+        }
+    }
+    let res = serde_json::json!({
+        "prop": prop,
+        "tier": if thorough { "thorough" } else { "quick" },
+        "shard": shard,
+        "nshards": nshards,
+        "scenarios_total": total,
+        "bound": lim.bound,
+        "max_execs_per_scenario": lim.max_execs,
+        "skipped_for_time_budget": skipped_budget,
+        "stats": stats,
+        "sample": sample,
+        "found": found,
+        "sigs": if args.iter().any(|a| a == "--sigs") { serde_json::Value::Array(sigs) } else { serde_json::Value::Null },
+        "wall_s": t0.elapsed().as_secs_f64(),
+    });
+    let text = serde_json::to_string(&res).unwrap();
+    match out {
+        Some(f) => std::fs::write(f, text).unwrap(),
+        None => println!("{text}"),
+    }
+}
+
+fn cmd_replay(args: &[String]) {
+    let file = args.get(2).expect("replay <file>");
+    let text = std::fs::read_to_string(file).expect("read replay file");
+    let v: serde_json::Value = serde_json::from_str(&text).expect("json");
+    let prop = v["property"].as_str().expect("property").to_string();
+    let scn: Scenario = serde_json::from_value(v["scenario"].clone()).expect("scenario");
+    let schedule: Vec<u16> = serde_json::from_value(v["schedule"].clone()).expect("schedule");
+    let p = props::all().into_iter().find(|p| p.id == prop).expect("unknown property");
+    let scn = Arc::new(scn);
+    let (r, diverged) = explore::run_schedule(&scn, &schedule);
+    let ct = explore::canon(&r.trace, &r.raw_ids);
+    println!("scenario {} schedule {:?} diverged={} machinery_error={:?}", scn.name, schedule, diverged, r.error);
+    for (i, e) in ct.iter().enumerate() {
+        println!("{i:>4} {}", render(e));
+    }
+    let viol = (p.monitor)(&scn, &ct);
+    for x in &viol {
+        println!("VIOLATED {}: {}", x.clause, x.detail);
+    }
+    if viol.is_empty() {
+        println!("no violation on this replay");
+    } else {
+        println!("VIOLATION property={prop} replay={file}");
+        std::process::exit(1);
+    }
 }
